@@ -263,7 +263,7 @@ impl Target {
 // ------------------------------------------------------------------------------------------
 const ND: usize = 4; // delegated addresses d0..d3
 const NV: usize = 3; // verifiers v0, v1 (mock contracts), v2 (no contract there)
-const NK: usize = 4; // keys 0..3 per verifier
+const NK: usize = 6; // keys 0..5 per verifier (4 delegated + 2 x 6 verifying keys = 16 signers that can all be valid at once)
 const NP: usize = 7; // mock policies 0..6 in HOST ORDER of their addresses (= Map key order)
 const NT: usize = 3; // call targets / wasm hashes
 const MAX_TTL: u32 = 3_000_000;
@@ -1395,6 +1395,20 @@ fn directed(t: &mut Trace) {
     s.add(t, Ty::K(0), None, &alls[..3], &[], 1);
     let all15: Vec<(Sg, u8)> = alls[1..16].iter().map(|x| (*x, 1u8)).collect();
     s.check(t, &all15, &[0, 1, 2, 3], &[C(0, 0)]);
+
+    // MAX_SIGNERS is a limit PER RULE: one check over a batch of contexts may carry more signatures than
+    // any single rule can list (here 16 = 8 + 8, all of them verifying, two contexts, two rules)
+    t.seq("directed batch over two rules with 16 signers start=100 s0=d0 p0=-");
+    let mut s = Sim::new(100, &[D(0)], &[]).unwrap();
+    let valid: Vec<Sg> = alls.iter().copied().filter(|x| !matches!(x, X(2, _))).collect();
+    assert!(valid.len() >= 16);
+    s.add(t, Ty::C(1), None, &valid[..8], &[], 1);
+    s.add(t, Ty::C(2), None, &valid[8..16], &[], 2);
+    let all16: Vec<(Sg, u8)> = valid[..16].iter().map(|x| (*x, 1u8)).collect();
+    s.check(t, &all16, &[0, 1, 2, 3], &[C(1, 0), C(2, 0)]);
+    s.check(t, &all16[..15], &[0, 1, 2, 3], &[C(1, 0), C(2, 0)]);
+    s.check(t, &all16[..8], &[0, 1, 2, 3], &[C(1, 0)]);
+    s.check(t, &all16[8..], &[0, 1, 2, 3], &[C(2, 0)]);
 }
 
 fn main() {
